@@ -132,6 +132,21 @@ def analyse_generated(text, regions, unit_props):
                         if t.kind == 'punct' and t.text in '([{':
                             k = t.match + 1
                             continue
+                        if t.kind == 'ident' and t.text in ('forall', 'exists', 'choose'):
+                            # skip the binder list `|x: T, y: U|`
+                            k2 = k + 1
+                            while k2 < depth_guard and toks[k2].kind in rustlex.SIG:
+                                k2 += 1
+                            if k2 < depth_guard and toks[k2].text == '|':
+                                k3 = k2 + 1
+                                while k3 < depth_guard and toks[k3].text != '|':
+                                    if toks[k3].kind == 'punct' and toks[k3].text in '([{':
+                                        k3 = toks[k3].match
+                                    k3 += 1
+                                if cur is not None and start_tok is None:
+                                    start_tok = k
+                                k = k3 + 1
+                                continue
                         if t.kind == 'ident' and t.text in KW_CLAUSE:
                             if cur is not None and start_tok is not None:
                                 clauses.append((cur, start_tok, k - 1))
